@@ -54,6 +54,12 @@ CHECKS['C13'] = ('§3 C13', 'R02b tail repair of the transaction log on reopen, 
                  'logs and what recovery restores (with lock handles), R13b recovery consumes every list its classification fills',
                  'MIR reachability under a phase assumption, writer/reader table agreement, field read/write sets')
 
+CHECKS['C19'] = ('§3 C19', 'R19a the `_refs` read-modify-write and the exists-then-increment-or-put run under a lock held in the function or at '
+                 'every call site, R19b gc_cycle deletes only under must-pass tests implying refs <= 0 and minimum age, full_gc only on '
+                 'non-membership in the set built from every artifact, R19c put and the streaming writer share one store_chunk path and '
+                 'delete_artifact decrements per chunk entry before removing metadata',
+                 'RMW detection by def-use slices, held-on-entry lock summaries, must-pass switch edges with interval implication')
+
 NOT_APPLICABLE = {
     'C18': 'optimality and textbook agreement of path/graph algorithms are facts about computed values on arbitrary graphs; '
            'no clause is visible in the code\'s shape without freezing the algorithm (DESIGN §3 C18)',
